@@ -30,7 +30,9 @@ Definition growth_end (hdr : N) (bs name : bytes) : option N :=
   if (len name =? 0) || (c_maxNameLen <? len name) then None else
   match lookup bs hdr name with
   | LMissing =>
-      let '(_, e) := place hdr (load32 bs (hdr + c_limitOff)) (len name) in
+      let limit := load32 bs (hdr + c_limitOff) in
+      let '(s, e) := place hdr limit (len name) in
+      if (s <? limit) || (e <? s) || (round_u32 e c_pageSize <? e) then None else
       if len bs <? e then Some e else None
   | _ => None
   end.
